@@ -21,7 +21,7 @@ ID = "C09"
 RULE = (
     "documents are tie-rich by construction: neutral text + keywords that the shipped keyword directory lists in several "
     "files or in several letter-case variants (found by reading the directory) + token-soup fragments. Dimensions: "
-    "(1) fresh interpreters under PYTHONHASHSEED in {0,1,2,3,<2 drawn>} (library JSON and CLI stdout); (2) registries built "
+    "(1) fresh interpreters under PYTHONHASHSEED in {0,1,2,3,<2 drawn>} (library JSON, CLI stdout, and registries built with an include list of decoder modules); (2) registries built "
     "while directory enumeration (os.scandir / os.listdir / os.walk) returns entries in a Hypothesis-drawn permutation, on the "
     "shipped and on generated keyword directories; (3) a rule-based state machine over histories: scan on a shared scanner, "
     "scan on a fresh scanner, rebuild the registry, scan through the CLI - every result must equal the result of a fresh interpreter "
@@ -63,7 +63,8 @@ def tie_keywords():
 def tie_docs():
     multi, variants = tie_keywords()
     kw = st.one_of(st.sampled_from(multi), st.sampled_from(variants), st.sampled_from(variants).map(bytes.swapcase), st.sampled_from(multi).map(bytes.upper))
-    piece = st.one_of(kw, kw, S.neutral(1, 2), S.fragment(2))
+    cross = st.sampled_from([b"cmd.exe", b"C:\\Windows\\System32\\cmd.exe", b"powershell.exe", b"\\\\files.example.com\\share\\setup.exe", b"http://1.2.3.4/a.exe"])  # equal-span hits from different decoder modules
+    piece = st.one_of(kw, kw, S.neutral(1, 2), S.fragment(2), cross)
     return st.lists(st.tuples(piece, st.sampled_from([b" ", b"\n", b"; ", b"("])).map(b"".join), min_size=1, max_size=6).map(b"".join)
 
 
@@ -109,12 +110,12 @@ def _scratch():
 
 
 # ---- (1) hash seeds -----------------------------------------------------------------------------------
-def scan_in_subprocess(docs, hashseed, cli=False):
+def scan_in_subprocess(docs, hashseed, cli=False, include=None):
     d = tempfile.mkdtemp(prefix="vf-c09-", dir=_scratch())
     try:
         p = os.path.join(d, "corpus.json")
         with open(p, "w") as f:
-            json.dump([{"data": x["data"].hex(), "depth": x.get("depth")} for x in docs], f)
+            json.dump({"include": include, "docs": [{"data": x["data"].hex(), "depth": x.get("depth")} for x in docs]}, f)
         env = dict(os.environ, PYTHONHASHSEED=str(hashseed))
         r = subprocess.run([sys.executable, "-m", "vf.scanjson", p] + (["cli"] if cli else []), cwd=VERIF_DIR, env=env, capture_output=True, text=True, timeout=1800)
         if r.returncode != 0:
@@ -129,30 +130,44 @@ def check_hashseed(case) -> Outcome:
     o = Outcome()
     docs = [{"data": case["data"], "depth": case.get("depth")}]
     cli = bool(case.get("cli"))
-    a = scan_in_subprocess(docs, case["seeds"][0], cli)[0]
-    b = scan_in_subprocess(docs, case["seeds"][1], cli)[0]
+    a = scan_in_subprocess(docs, case["seeds"][0], cli, case.get("include"))[0]
+    b = scan_in_subprocess(docs, case["seeds"][1], cli, case.get("include"))[0]
     if a != b:
         o.violate("hashseed:" + ("cli-output" if cli else "tree") + "-differs", {"data": case["data"], "seeds": case["seeds"]})
     o.nontrivial = (not cli) and has_tie(a)
     return o
 
 
+def decoder_modules():
+    import multidecoder.decoders
+
+    d = list(multidecoder.decoders.__path__)[0]
+    return sorted(fn[:-3] for fn in os.listdir(d) if fn.endswith(".py") and fn != "__init__.py")
+
+
 def run_hashseeds(ctx, shard, nshards, seed, budget):
     per = max(4, budget // nshards)
     docs = [{"data": d, "depth": None} for d in draw_corpus(tie_docs(), per, seed)]
     seeds = [0, 1, 2, 3, 1000 + seed % 100000, 77777 + 13 * shard]
-    for cli in (False, True):
+    # configurations: the default registry, and registries built with an include list (the order in which the selected
+    # modules are registered must not depend on the hash seed either); the include list is a deterministic function of
+    # (seed, shard) so that a run is reproducible
+    mods = decoder_modules()
+    k = 2 + (seed + shard) % 4
+    inc = [mods[(shard * 5 + seed + 3 * i) % len(mods)] for i in range(k)] + ["filename", "shell", "path"][: 1 + shard % 3]
+    inc = sorted(set(inc), key=inc.index)
+    for cli, include in ((False, None), (True, None), (False, inc)):
         sub = docs if not cli else docs[: max(2, len(docs) // 4)]
-        base = scan_in_subprocess(sub, seeds[0], cli)
+        base = scan_in_subprocess(sub, seeds[0], cli, include)
         for hs in seeds[1:]:
-            other = scan_in_subprocess(sub, hs, cli)
+            other = scan_in_subprocess(sub, hs, cli, include)
             for doc, a, b in zip(sub, base, other):
                 o = Outcome()
                 o.nontrivial = (not cli) and has_tie(a)
-                o.label("hashseed:cli" if cli else "hashseed:library")
+                o.label("hashseed:cli" if cli else ("hashseed:library:include-list" if include else "hashseed:library"))
                 if a != b:
-                    o.violate("hashseed:" + ("cli-output" if cli else "tree") + "-differs", {"data": doc["data"], "seeds": [seeds[0], hs]})
-                ctx.record({"data": doc["data"], "depth": None, "seeds": [seeds[0], hs], "cli": cli}, o)
+                    o.violate("hashseed:" + ("cli-output" if cli else "tree") + "-differs" + (":include-list" if include else ""), {"data": doc["data"], "seeds": [seeds[0], hs], "include": include})
+                ctx.record({"data": doc["data"], "depth": None, "seeds": [seeds[0], hs], "cli": cli, "include": include}, o)
 
 
 # ---- (2) directory enumeration order ---------------------------------------------------------------------
